@@ -76,12 +76,18 @@ def erase (s : Store) (k : Key) : Store :=
 def set (s : Store) (k : Key) (v : Val) : Store :=
   { s with docs := (k, v) :: (s.docs.filter (fun kv => kv.1 ≠ k)) }
 
+/-- the document under key `k` is a change of tree `t` -/
+def inTree (s : Store) (t : Nat) (k : Key) : Bool :=
+  k.coll = .changes && (match s.get k with
+    | some (.change c) => c.tree = t
+    | _ => false)
+
+/-- keep the documents whose key satisfies `q` -/
+def filterKeys (s : Store) (q : Key → Bool) : Store :=
+  { s with docs := s.docs.filter (fun kv => q kv.1) }
+
 /-- `Find(t == tree).Delete` on the changes collection -/
-def eraseTree (s : Store) (t : Nat) : Store :=
-  { s with docs := s.docs.filter (fun kv =>
-      match kv.1.coll, kv.2 with
-      | .changes, .change c => c.tree ≠ t
-      | _, _ => true) }
+def eraseTree (s : Store) (t : Nat) : Store := s.filterKeys (fun k => !s.inTree t k)
 
 def hasColl (s : Store) (c : Coll) : Bool := s.colls.any (fun x => x.1 = c)
 
@@ -123,15 +129,18 @@ structure Db where
   failed    : Bool := false
 deriving DecidableEq, Repr, Inhabited
 
+/-- the common snapshot recorded in an existing heads entry -/
+def oldCs (s : Store) (id : Nat) : Option Nat :=
+  match s.get ⟨.heads, id⟩ with
+  | some (.heads h) => h.cs
+  | _ => none
+
 def applyWrite (s : Store) : Call → Option Store
   | .mkcoll c => some (s.mkColl c)
   | .idx c => some (s.addIndex c)
   | .insert k v => if (s.get k).isSome then none else some (s.set k v)
   | .upsertHeads id hs cs =>
-      let old : Option Nat := match s.get ⟨.heads, id⟩ with
-        | some (.heads h) => h.cs
-        | _ => none
-      some (s.set ⟨.heads, id⟩ (.heads ⟨hs, match cs with | some c => some c | none => old⟩))
+      some (s.set ⟨.heads, id⟩ (.heads ⟨hs, match cs with | some c => some c | none => oldCs s id⟩))
   | .qdelTree t => some (s.eraseTree t)
   | _ => some s
 
